@@ -191,8 +191,9 @@ type thresholds struct {
 func historyBounds(c *core.Ctx) thresholds {
 	if c.Thorough() {
 		return thresholds{L: 5,
-			ThrN: [][]int{{1000, 1000, 120, 60, 50}, {1000, 300, 80, 50, 40}},
-			ThrC: [][]int{{1000, 300, 60, 40, 40}, {1000, 100, 40, 30, 30}}}
+			// (reduced after a thorough run did not finish within 50 minutes on a loaded machine)
+			ThrN: [][]int{{1000, 600, 80, 40, 30}, {1000, 200, 60, 30, 25}},
+			ThrC: [][]int{{1000, 200, 40, 30, 25}, {600, 80, 30, 20, 20}}}
 	}
 	return thresholds{L: 4,
 		ThrN: [][]int{{1000, 1000, 30, 40}, {1000, 80, 40, 30}},
